@@ -111,10 +111,31 @@ def make_harness(kind, shape, nds):
                         if len(cols) != 1 or [float(x) for x in np.asarray(cols[0]).reshape(-1)] != [float(dv[b]) for b in rows_bins]:
                             good = False
                     ex.check(good, 'rows-carry-the-values-of-their-bins')
+                    # cell level: the verdict column of EACH dataset is highlighted exactly in the rows of ITS failing bins
+                    cell_ok = True
+                    for d in range(len(info['datasets'])):
+                        suffix = f'({"ds%d" % d})?' if len(info['datasets']) > 1 else '?'
+                        idx = [c for c, h in enumerate(t.headers) if h.endswith(suffix) and not h.startswith(('v(', 'σ(', 't('))]
+                        if len(idx) != 1:
+                            cell_ok = False
+                            continue
+                        mask = [bool(x) for x in np.asarray(t.highlights[idx[0]]).reshape(-1)]
+                        if mask != [b in info['failing'][d] for b in rows_bins]:
+                            cell_ok = False
+                        shown_verdicts = [bool(x) for x in np.asarray(t.columns[idx[0]]).reshape(-1)]
+                        if shown_verdicts != [b not in info['failing'][d] for b in rows_bins]:
+                            cell_ok = False
+                    ex.check(cell_ok, 'each-dataset-verdict-cell-is-marked-iff-that-comparison-failed')
                     # text level: the rows wrapped in :hl: are the rows of the failing bins
                     marked = [ln for ln in text.splitlines() if ':hl:' in ln and not ln.startswith('..')]
                     want = [b for b in rows_bins if b in union]
-                    ex.check(len(marked) == len(want) and all(_row_has(ln, refv[b]) for b, ln in zip(want, marked)),
+                    # the formatter walks the arrays in memory order: match rows and bins as multisets
+                    left = list(want)
+                    for ln in marked:
+                        hit = [b for b in left if _row_has(ln, refv[b])]
+                        if hit:
+                            left.remove(hit[0])
+                    ex.check(len(marked) == len(want) and not left,
                              'marked-text-rows-are-the-failing-bins-with-their-values')
         if kind in ('stats_tasks', 'stats_tests') and v != Verbosity.SILENT:
             tabs = [t for t in templates if isinstance(t, TableTemplate)]
@@ -178,7 +199,7 @@ def jobs(tier):
     out = [('slice-join', _job, dict(kind='slice', shape=None, nds=0, timeout_ms=20000))]
     for kind in KINDS:
         if kind in ('equal', 'approx', 'student', 'bonferroni', 'holm'):
-            combos = [('1d', 1), ('1d', 2), ('2d', 1)]
+            combos = [('1d', 1), ('1d', 2), ('2d', 1), ('2dF', 1)]
             if tier == 'thorough':
                 combos += [('2d', 2), ('scalar', 1)]
         else:
